@@ -140,8 +140,10 @@ def print_assumptions(pid, names):
         txt = " ".join(body)
         if "Closed under the global context" in txt:
             continue
-        axs = [l.split(":")[0].strip() for l in body if re.match(r"^\S+\s*:", l)]
-        extra = [a for a in axs if a not in ALLOWED_AXIOMS]
+        axs = [l.split(":")[0].strip() for l in body if re.match(r"^\S+\s*:", l) and not l.startswith("Axioms:")]
+        # the kernel's primitive 63-bit integers (used only by the executable SHA-256 in the RFC
+        # known-answer examples) are listed by Print Assumptions; they are primitives, not axioms of ours
+        extra = [a for a in axs if a not in ALLOWED_AXIOMS and not a.startswith("PrimInt63.")]
         if extra or not axs:
             bad[n] = body
     return rc, bad, out
@@ -189,7 +191,7 @@ def harness_run(binary, family, seed, tier, extra_args=None, timeout=3000):
 
 # ------------------------------------------------------------------ model evaluation in Coq
 
-def run_shards(pid, cases, workdir, preamble_extra=""):
+def run_shards(pid, cases, workdir, preamble_extra="", with_rfc=False):
     """cases: list of (id, json) that have a Coq rendering. returns (mismatch_ids, shown_text, errors)"""
     os.makedirs(workdir, exist_ok=True)
     for f in glob.glob(os.path.join(workdir, "cases_*")):
@@ -233,6 +235,9 @@ def run_shards(pid, cases, workdir, preamble_extra=""):
             else:
                 fh.write('Goal True. idtac "@@RESULT". exact I. Qed.\n')
                 fh.write("Eval vm_compute in run_cases cs.\n")
+                if with_rfc:
+                    fh.write('Goal True. idtac "@@RFC". exact I. Qed.\n')
+                    fh.write("Eval vm_compute in run_rfc cs.\n")
         return path
 
     def run_one(k):
@@ -242,6 +247,7 @@ def run_shards(pid, cases, workdir, preamble_extra=""):
         return k, rc, out, time.time() - t0
 
     mism = []
+    rfc_mism = []
     errors = []
     shown = ""
     with concurrent.futures.ThreadPoolExecutor(max_workers=NSHARDS) as ex:
@@ -252,6 +258,13 @@ def run_shards(pid, cases, workdir, preamble_extra=""):
             errors.append("shard %d: coqc rc=%d: %s" % (k, rc, out[-600:]))
             continue
         tail = out.split("@@RESULT", 1)[1]
+        if "@@RFC" in tail:
+            tail, rtail = tail.split("@@RFC", 1)
+            mr = re.search(r"=\s*\[(.*?)\]\s*:\s*list N", rtail, re.S)
+            if mr:
+                rfc_mism += [int(x) for x in re.findall(r"\d+", mr.group(1))]
+            else:
+                errors.append("shard %d: cannot parse RFC result: %s" % (k, rtail[-300:]))
         m = re.search(r"=\s*\[(.*?)\]\s*:\s*list N", tail, re.S)
         if not m:
             errors.append("shard %d: cannot parse result: %s" % (k, tail[-300:]))
@@ -264,7 +277,7 @@ def run_shards(pid, cases, workdir, preamble_extra=""):
             path = write_shard(k, shards[k], show_ids=ids[:6])
             rc2, out2 = sh("ulimit -s unlimited 2>/dev/null; timeout 2400 coqc -noglob -Q %s/theories HbsLms -w none %s" % (COQ, path), cwd=workdir, timeout=2500)
             shown += out2
-    return sorted(mism), shown, errors
+    return sorted(mism), shown, errors, sorted(rfc_mism)
 
 
 # ------------------------------------------------------------------ findings
@@ -400,10 +413,11 @@ def run_property(pid, tier, seed, replay=None):
         violations.append(("harness", {"what": "harness does not build/run against the current source", "errors": hb_errors}, True))
 
     # 3. correspondence
-    mism_ids, shown, cerrors = [], "", []
+    mism_ids, shown, cerrors, rfc_ids = [], "", [], []
     obligations += 1
     if corr_cases and runner_ok:
-        mism_ids, shown, cerrors = run_shards(pid, corr_cases, os.path.join(CACHE, "cases", pid))
+        mism_ids, shown, cerrors, rfc_ids = run_shards(pid, corr_cases, os.path.join(CACHE, "cases", pid),
+                                                       with_rfc=bool(prop.get("rfc")))
         if cerrors:
             violations.append(("correspondence_engine", {"what": "model evaluation failed", "errors": cerrors}, True))
     elif corr_cases and not runner_ok:
@@ -428,6 +442,14 @@ def run_property(pid, tier, seed, replay=None):
     elif not cerrors and corr_cases and runner_ok:
         discharged += 1
 
+    # 3b. the RFC 8554 transcription as judge of the implementation's verdicts
+    if prop.get("rfc"):
+        for cid in rfc_ids:
+            it = dict(by_id[cid])
+            it.update({"k": "oracle", "name": "rfc8554_verdict", "ok": False,
+                       "why": "the implementation's verdict differs from RFC 8554 section 6.3 (independent transcription evaluated in Coq)"})
+            oracle_items.append(it)
+        cov_rfc = len([1 for _, it in corr_cases if it["k"] == "verify"])
     # 4. implementation-only property oracle
     obligations += 1
     bad_oracle = []
